@@ -180,10 +180,11 @@ pub struct RepPlan {
 pub fn gen_rep_plan(seed: u64, thorough: bool) -> RepPlan {
     let mut rng = Rng::new(seed);
     let start_index = *rng.pick(&[0u16, 0, 1, 2, 3, 4, 5, 17, 100, 4000, 4990]);
-    let start_half = (*rng.pick(&[0u16, 0, 1, 3, 4, 10, 60])).min(start_index);
-    let alphabet = *rng.pick(&[2u64, 3, 4, 6]);
-    let n = rng.range(4, if thorough { 120 } else { 40 }) as usize;
-    let irr = *rng.pick(&[0u64, 1, 2, 4]);
+    let start_half = (*rng.pick(&[0u16, 0, 1, 3, 4, 10, 60, 100, 127, 140])).min(start_index);
+    let alphabet = *rng.pick(&[2u64, 3, 4, 6, 40]);
+    // windows longer than 128 plies (half-move clocks up to 150+ are in the property's range)
+    let n = rng.range(4, if thorough { 200 } else { 90 }) as usize;
+    let irr = *rng.pick(&[0u64, 0, 1, 2, 4]);
     let mut seq: Vec<(u8, bool)> = Vec::new();
     for i in 0..n {
         // a real game cannot return to the position of two plies ago; avoid it like the rules do
